@@ -16,6 +16,9 @@
 mod decoder;
 mod encoder;
 mod stream_reader;
+#[cfg(woodpile_verif)]
+#[doc(hidden)]
+pub mod verif_hooks;
 
 use std::io::Read;
 use std::num::NonZeroUsize;
